@@ -864,13 +864,6 @@ Proof.
     apply run_lift; eapply un_shape; eauto.
 Qed.
 
-(** conversions between integer kinds: dest.Set(value.Convert(typ)) *)
-Definition y_convert (kto : rkind) (v : value) : res value :=
-  match v with
-  | VInt kf z => store SConv kto (if signed kf then MI z else MU z)
-  | _ => Bad
-  end.
-
 Lemma conv_int kf kto x : is_int kf = true -> is_int kto = true ->
   y_convert kto (VInt kf x) = Ok (VInt kto (go_conv kto x)).
 Proof. intros If It. unfold y_convert, store, go_conv. rewrite It. destruct (signed kf); reflexivity. Qed.
